@@ -45,6 +45,7 @@ def run(ctx: Ctx) -> None:
     _memo.rule_isinstance_on_class(ctx, ['graphiq/backends/lc_equivalence_check.py', 'graphiq/backends/stabilizer/functions/local_cliff_equi_check.py', 'graphiq/backends/graph/state.py'])
     _memo.rule_zip_truncation(ctx, ['graphiq/backends/lc_equivalence_check.py', 'graphiq/backends/stabilizer/functions/local_cliff_equi_check.py', 'graphiq/backends/graph/state.py'])
     _memo.rule_search_fallthrough(ctx, ['graphiq/backends/lc_equivalence_check.py', 'graphiq/backends/stabilizer/functions/local_cliff_equi_check.py', 'graphiq/backends/graph/state.py'])
+    _memo.rule_zip_pairing(ctx, ['graphiq/backends/lc_equivalence_check.py', 'graphiq/backends/stabilizer/functions/local_cliff_equi_check.py', 'graphiq/backends/graph/state.py'])
     repo = ctx.repo
     tables.rule_gl22(ctx)
     rule_token_order(ctx)
